@@ -420,6 +420,53 @@ impl Presentation {
     }
 }
 
+/// Every presentation of a grammar along the dimensions that interact with its shape: per production named / tuple
+/// and every `_` mask, per single-production nonterminal struct / enum, declaration order as is / reversed.
+/// The layout (where `start` and the terminal enum stand) rotates; naming order and attributes stay fixed.
+pub fn for_each_presentation(g: &Grammar, f: &mut dyn FnMut(Presentation)) {
+    let singles: Vec<usize> = (0..g.n).filter(|nt| g.prods.iter().filter(|p| p.0 as usize == *nt).count() == 1).collect();
+    fn styles_rec(g: &Grammar, i: usize, cur: &mut Vec<ProdStyle>, f: &mut dyn FnMut(&Vec<ProdStyle>)) {
+        if i == g.prods.len() {
+            f(cur);
+            return;
+        }
+        let len = g.prods[i].1.len();
+        for named in [false, true] {
+            if len == 0 && named {
+                continue; // an empty fieldset has one spelling per kind; the tuple form stands for both
+            }
+            for mask in 0..(1u32 << len.min(5)) {
+                cur.push(ProdStyle { named, skip_mask: mask });
+                styles_rec(g, i + 1, cur, f);
+                cur.pop();
+            }
+        }
+    }
+    let mut count = 0u64;
+    let mut all_styles: Vec<Vec<ProdStyle>> = vec![];
+    styles_rec(g, 0, &mut vec![], &mut |st| all_styles.push(st.clone()));
+    for styles in all_styles {
+        for sm in 0..(1u32 << singles.len()) {
+            let mut single_as_struct = vec![false; g.n];
+            for (k, nt) in singles.iter().enumerate() {
+                single_as_struct[*nt] = sm >> k & 1 == 1;
+            }
+            for rev in [false, true] {
+                if rev && g.n < 2 {
+                    continue;
+                }
+                let mut decl_order: Vec<u8> = (0..g.n as u8).collect();
+                if rev {
+                    decl_order.reverse();
+                }
+                // (the layout - where `start` and the terminal enum stand - rotates instead of multiplying the space)
+                count += 1;
+                f(Presentation { decl_order: decl_order.clone(), single_as_struct: single_as_struct.clone(), styles: styles.clone(), layout: (count % 3) as u8, naming: 0, attribute: String::new(), payload: "()".into(), names: Default::default() });
+            }
+        }
+    }
+}
+
 pub struct Names {
     pub nonterminals: Vec<String>,
     pub terminals: Vec<String>,
